@@ -116,8 +116,8 @@ pub fn run(cfg: &Cfg) -> i32 {
     let mut out = Out::new("C02", cfg);
     let shard = cfg.shard as u64;
     let gcfg = GenCfg::modern();
-    let nprog: usize = std::env::var("VH_NPROG").ok().and_then(|x| x.parse().ok()).unwrap_or(cfg.pick(90, 1500));
-    SLOW_MS.store(cfg.pick(4000, 45000), std::sync::atomic::Ordering::SeqCst);
+    let nprog: usize = std::env::var("VH_NPROG").ok().and_then(|x| x.parse().ok()).unwrap_or(cfg.pick(90, 600));
+    SLOW_MS.store(cfg.pick(4000, 20000), std::sync::atomic::Ordering::SeqCst);
     for i in out.resume_from..nprog {
         out.checkpoint(i);
         // a different slice of the generator's sequence than C01 uses
